@@ -769,7 +769,7 @@ func (cs *ContractSet) loadContractFile(path string, pkgPath string, trusted boo
 			}
 			cs.Ghosts[g.Name] = g
 			lastClause, lastDef, pendingSrc = nil, nil, nil
-		case "atcall":
+		case "atcall", "aftercall":
 			// atcall <callee-name> <ordinal> <expr> : assertion in the caller's scope just before the
 			// n-th call (source order) of a function or method with that name
 			if cur == nil || len(fields) < 4 {
@@ -779,7 +779,7 @@ func (cs *ContractSet) loadContractFile(path string, pkgPath string, trusted boo
 			n := 0
 			fmt.Sscanf(fields[2], "%d", &n)
 			src := strings.TrimSpace(strings.SplitN(line, fields[2], 2)[1])
-			cl := &Clause{Kind: "atcall", Tags: tags, Src: src, Loop: n, File: path, Line: ln + 1, Callee: fields[1], Name: fmt.Sprintf("atcall:%s#%d", fields[1], n)}
+			cl := &Clause{Kind: kw, Tags: tags, Src: src, Loop: n, File: path, Line: ln + 1, Callee: fields[1], Name: fmt.Sprintf("%s:%s#%d", kw, fields[1], n)}
 			cur.Clauses = append(cur.Clauses, cl)
 			lastClause, lastDef = cl, nil
 			pendingSrc = &cl.Src
